@@ -539,7 +539,9 @@ where
                         } else if !jsx_attr
                             .value
                             .as_ref()
-                            .map(util::is_jsx_attr_value_constant)
+                            .map(|value| {
+                                util::is_jsx_attr_value_constant(value, self.unresolved_mark)
+                            })
                             .unwrap_or_default()
                         {
                             if !is_component && util::is_on(&attr_name)
